@@ -1,5 +1,6 @@
 """Crate-wide zero-count rules (A5/A6/A7) shared by C01 and C19, plus their fixture self-test."""
 import os
+import re
 
 from . import extract
 from .facts import Facts
@@ -37,6 +38,48 @@ def denied_effects(F, skip_derived=False):
                 out.append((f, st["line"], "pointer to integer cast"))
             if rv["k"] == "threadlocal":
                 out.append((f, st["line"], "thread-local " + rv.get("item", "")))
+    return out
+
+
+BACKTRACE_BEARING = ("anyhow::Error", "cosmwasm_std::StdError", "std::backtrace::Backtrace", "cosmwasm_std::errors::backtrace")
+
+
+def backtrace_adts(F):
+    """local ADTs that (transitively) contain a backtrace-bearing error value"""
+    bad = set()
+    changed = True
+    while changed:
+        changed = False
+        for path, adt in F.adts.items():
+            if path in bad:
+                continue
+            for v in adt["variants"]:
+                for fl in v["fields"]:
+                    s = fl["ty"]["s"]
+                    if any(b in s for b in BACKTRACE_BEARING) or any(re.search(r"(?<![\w:])%s(?![\w])" % re.escape(b), s) for b in bad):
+                        bad.add(path)
+                        changed = True
+    return bad
+
+
+def debug_formatted_errors(F):
+    """[(fn, line, type)] `{:?}` applied to a value whose Debug output embeds a captured backtrace (it depends on the
+    RUST_BACKTRACE / RUST_LIB_BACKTRACE environment variables and on the call stack), on a path that can still return"""
+    from .cfg import cfg_of
+    bad = backtrace_adts(F)
+    out = []
+    for f in F.fns.values():
+        for bid, t in f.calls():
+            c = t["callee"]
+            if not c["key"].endswith("Argument::new_debug"):
+                continue
+            ty = (c.get("gargs") or ["", ""])[-1]
+            if not (any(b in ty for b in BACKTRACE_BEARING) or any(re.search(r"(?<![\w:])%s(?![\w])" % re.escape(b), ty) for b in bad)):
+                continue
+            cfg = cfg_of(f)
+            if not any(cfg.can_reach(bid, r) or bid == r for r in cfg.return_blocks()):
+                continue    # only feeds a panic message
+            out.append((f, t["line"], ty))
     return out
 
 
@@ -90,6 +133,8 @@ def selftest():
     res["thread::spawn"] = (any("std::thread::" in w for f, l, w in eff), whats)
     res["pointer->int cast"] = (any("pointer to integer" in w for f, l, w in eff), whats)
     res["{:p}"] = (any("{:p}" in w for f, l, w in eff), whats)
+    de = debug_formatted_errors(F)
+    res["{:?} of a backtrace-bearing error"] = (any(f.key == "debug_formats_error" for f, l, ty in de) and not any(f.key == "debug_in_panic_only" for f, l, ty in de), str([(f.key, ty) for f, l, ty in de]))
     ht = hash_types(F)
     res["HashMap field"] = (any(w.startswith("field") for k, w in ht), str(ht[:3]))
     res["HashSet local"] = (any(w.startswith("local") for k, w in ht), str(ht[:3]))
